@@ -50,7 +50,12 @@ ASSUMPTIONS = ['Gauss quadrature of the degree chosen per geometry (2 affine map
                'overlap/duplication is decided by the element index model plus per-element measure and first moment instead of a probe grid',
                'exceptions raised by nutils while applying an operation (NotImplementedError, ValueError, KeyError, TypeError for NotImplemented, '
                'and AttributeError for trimmed (Mosaic) elements that cannot be refined / topologies without a connectivity table) are refusals: counted, never violations',
-               'periodic axes are generated with >= 3 elements (1- and 2-element periodic axes make an element its own / a double neighbour)']
+               'envelope: periodic axes have >= 3 elements (with 1 element nutils omits the self-interface in trimmed topologies, with 2 its interfaces '
+               'raise "repeating an element is not allowed"); ndivisions in {4, 8, 16}; level sets never vanish identically on an element edge/face '
+               'inside which they change sign (then trim(f) and trim(-f) both keep the zero edge: the trim(-f) comparison is skipped and counted)',
+               'trimmed-boundary groups are compared piece by piece; unmatched pieces that belong to an element with a degenerate (zero/full volume) mosaic, '
+               'which Reference.slice documents, are counted as slivers, any other unmatched piece is a violation',
+               '1-D simplex meshes (mesh.simplex with line elements) are not generated: SimplexTopology.boundary asserts "duplicate nodes" for them']
 import os
 # C10_NCASES / C10_BUDGET: development overrides only (planted-break runs on a loaded machine)
 NCASES = {'quick': int(os.environ.get('C10_NCASES', 700)), 'thorough': int(os.environ.get('C10_NCASES', 5000))}
@@ -1197,6 +1202,9 @@ def finalize(m, tier, seed):
                monitors={k[8:]: v for k, v in c.items() if k.startswith('monitor/')},
                mesh_kinds={k[5:]: v for k, v in c.items() if k.startswith('mesh/')}, dimensions={k[5:]: v for k, v in c.items() if k.startswith('dims/')},
                geometries={k[5:]: v for k, v in c.items() if k.startswith('geom/')}, topology_types=sorted(m.sets.get('topology_types', ())),
+               known_findings={k[14:]: v for k, v in c.items() if k.startswith('known_finding/')},
+               negated_trim={k: c.get(k, 0) for k in ('negated_trim_identical_to_complement', 'negated_trim_differs_from_complement', 'negated_trim_skipped_degenerate_levelset')},
+               cut_slivers=dict(trims=c.get('trims_with_cut_slivers', 0), pieces=c.get('cut_sliver_pieces', 0)),
                trim=dict(maxrefine={k[15:]: v for k, v in c.items() if k.startswith('trim_maxrefine/')}, with_cut_elements=c.get('trims_with_cut', 0),
                          without_cut_elements=c.get('trims_without_cut', 0), cut_elements=c.get('trim_cut_elements', 0),
                          levelset_tags=sorted(m.sets.get('levelset_tags', ()))),
